@@ -38,7 +38,18 @@ class _VSelector:
         if timeout is not None and timeout <= 0:
             return self._inner.select(0)
         if lp._outstanding > 0:
-            return self._inner.select(0.01)
+            ev = self._inner.select(0.01)
+            now = _real_time.monotonic()
+            mark = (lp._outstanding, lp._completed)
+            if mark != getattr(self, "_mark", None):
+                self._mark, self._since = mark, now
+            elif now - self._since > 30:   # 30 s of real time without any thread job completing
+                jobs = list(getattr(lp, "_jobs", {}).values())
+                n = lp._outstanding
+                lp._outstanding = 0
+                self._mark = None
+                raise RuntimeError(f"virtual loop: {n} thread job(s) never completed: {jobs[:5]}")
+            return ev
         ev = self._inner.select(0)
         if ev:
             return ev
@@ -56,21 +67,67 @@ class VLoop(asyncio.SelectorEventLoop):
         super().__init__()
         self._vtime = 1000.0
         self._outstanding = 0
+        self._completed = 0
+        self._spin = 0
         self._clock_resolution = 1e-6
         self._selector = _VSelector(self._selector, self)
 
     def time(self):
         return self._vtime
 
+    def _run_once(self):
+        # A task spinning on `await asyncio.sleep(0)` (copy() waiting for the destination's other
+        # commands does that) keeps the ready queue non-empty for ever, so virtual time would never
+        # advance and the timer it is really waiting for would never fire.  Real time would pass
+        # meanwhile: after 500 consecutive iterations with runnable callbacks and no thread job in
+        # flight, let every further iteration cost 10 ms of virtual time.
+        if self._outstanding == 0 and self._ready:
+            self._spin += 1
+            if self._spin > 500:
+                self._vtime += 0.01
+        else:
+            self._spin = 0
+        super()._run_once()
+
+    _jitter = None  # a random.Random: delays every thread-job completion by a small random virtual time
+
+    def jit(self):
+        return self._jitter.choice([0, 0, 0, 0.001, 0.002, 0.005, 0.02]) if self._jitter is not None else 0
+
     def run_in_executor(self, executor, func, *args):
         self._outstanding += 1
         fut = super().run_in_executor(executor, func, *args)
+        if self._jitter is None:
+            def done(_):
+                self._outstanding -= 1
+                self._completed += 1
 
-        def done(_):
+            fut.add_done_callback(done)
+            return fut
+        out = self.create_future()
+
+        def done2(f):
             self._outstanding -= 1
+            self._completed += 1
 
-        fut.add_done_callback(done)
-        return fut
+            def fin():
+                if out.done():
+                    return
+                if f.cancelled():
+                    out.cancel()
+                elif f.exception() is not None:
+                    out.set_exception(f.exception())
+                else:
+                    out.set_result(f.result())
+
+            d = self.jit()
+            if d:
+                self.call_later(d, fin)
+            else:
+                fin()
+
+        fut.add_done_callback(done2)
+        return out
 
 
 class _TimeShim:
@@ -106,13 +163,32 @@ def _patch_aiosqlite():
         async def wrapped(self, *a, **kw):
             lp = asyncio.get_event_loop()
             has = hasattr(lp, "_outstanding")
+            task = asyncio.current_task()
+            nested = getattr(task, "_verif_depth", 0) > 0
+            if task is not None:
+                task._verif_depth = getattr(task, "_verif_depth", 0) + 1
             if has:
                 lp._outstanding += 1
+                key = object()
+                if not hasattr(lp, "_jobs"):
+                    lp._jobs = {}
+                lp._jobs[key] = ("sqlite", name, str(a[:2])[:120])
             try:
-                return await orig(self, *a, **kw)
+                r = await orig(self, *a, **kw)
             finally:
                 if has:
                     lp._outstanding -= 1
+                    lp._completed += 1
+                    lp._jobs.pop(key, None)
+                if task is not None:
+                    task._verif_depth -= 1
+            # perturb the completion order -- but never while an enclosing wrapped call of this same
+            # task (close() -> _execute()) still counts as outstanding: time could not advance
+            if has and lp._jitter is not None and name == "_execute" and not nested:
+                d = lp.jit()
+                if d:
+                    await asyncio.sleep(d)
+            return r
 
         setattr(ac.Connection, name, wrapped)
 
@@ -153,13 +229,15 @@ def make_msg(cid: int, body_lines=2, extra_headers="") -> bytes:
 class World:
     """A mail root, one IMAPUserServer, any number of Authenticated sessions."""
 
-    def __init__(self, seed=0, pack_limits=None):
+    def __init__(self, seed=0, pack_limits=None, jitter=None):
         _patch_aiosqlite()
+        self._jitter = jitter
         self.tmp = Path(tempfile.mkdtemp(prefix="asimap-verif-"))
         self.root = self.tmp / "Mail"
         self.root.mkdir()
         mailbox.MH(str(self.root / "inbox"), create=True)
         self.loop = VLoop()
+        self.loop._jitter = None  # switched on by set_jitter() for the concurrent phase only
         asyncio.set_event_loop(self.loop)
         self.shim = _TimeShim(self.loop)
         self._patch_time()
@@ -178,6 +256,10 @@ class World:
 
         for m in (asimap.mbox, asimap.user_server, asimap.throttle, asimap.utils):
             m.time = self.shim
+
+    def set_jitter(self, rng):
+        """perturb the order of I/O completions (database thread, file executor) by seeded virtual delays"""
+        self.loop._jitter = rng
 
     # ---- running coroutines
     def run(self, coro, vtimeout=2000.0):
